@@ -336,7 +336,12 @@ namespace occa {
       return kernelHash;
     }
 
-    hash_t newKernelHash = kernelHash;
+    // The next key to look at is a hash of this key and of the current
+    // dependency hashes (tagged with the dependency names). XOR-ing the bare
+    // content hashes into the key made it come back to a key already visited
+    // (two dependencies with the same content, or contents swapped between
+    // two dependencies), which recursed until the stack overflowed
+    std::string newKernelHashSource = kernelHash.getFullString();
     bool foundDependencyChanges = false;
 
     jsonObject dependencyHashes = dependenciesJson.object();
@@ -348,7 +353,10 @@ namespace occa {
       if (io::exists(dependency)) {
         // Check whether the dependency changed
         hash_t newDependencyHash = hashFile(dependency);
-        newKernelHash ^= newDependencyHash;
+        newKernelHashSource += '\n';
+        newKernelHashSource += dependency;
+        newKernelHashSource += ':';
+        newKernelHashSource += newDependencyHash.getFullString();
 
         if (dependencyHash != newDependencyHash) {
           foundDependencyChanges = true;
@@ -363,7 +371,7 @@ namespace occa {
 
     if (foundDependencyChanges) {
       // Recursively check if new kernels had their dependencies changed
-      return applyDependencyHash(newKernelHash);
+      return applyDependencyHash(occa::hash(newKernelHashSource));
     }
     return kernelHash;
   }
